@@ -58,6 +58,7 @@ def run(ctx, info):
     n_hist = 450 if ctx.quick else 12000
     n_reuse = 60 if ctx.quick else 1500
     items, metas, res, kinds = scripted.correspondence(ctx, n_hist, n_reuse, [("stop-rule", scripted.oracle_c04)])
+    scripted.long_runs(ctx, [("stop-rule", scripted.oracle_c04)])
     distinct = len({json.dumps(m, sort_keys=True) for m in metas})
     ctx.add_cover(len(items), distinct,
                   "scripted population histories (1-12 cycles, 1-6 agents, rate patterns slow/plateau/noisy/up/hit, fitness_error and min_delta "
@@ -78,6 +79,8 @@ def run(ctx, info):
 def replay(rep):
     print(json.dumps({k: v for k, v in rep.items() if k != "replay"}, indent=1))
     m = rep["replay"]
+    if m.get("kind") == "long-history":
+        return scripted.replay_long(m, [("stop-rule", scripted.oracle_c04), ("best", scripted.oracle_c03)])
     if m.get("kind") == "history":
         h = scripted.meta_hist(m["history"])
         _, obs = scripted.run_real(h)
